@@ -20,6 +20,7 @@ import (
 
 	"github.com/dominant-strategies/go-quai/common"
 	"github.com/dominant-strategies/go-quai/core/types"
+	"github.com/dominant-strategies/go-quai/params"
 	"github.com/dominant-strategies/go-quai/ethdb"
 	"github.com/dominant-strategies/go-quai/trie"
 )
@@ -91,6 +92,39 @@ var c07Mutations = []c07Mutation{
 	{"totalfees", func(w *cwWorld, m *types.WorkObject) bool { m.Header().SetTotalFees(bump(m.TotalFees())); return true }},
 	{"uncledentropy", func(w *cwWorld, m *types.WorkObject) bool {
 		m.Header().SetUncledEntropy(bump(m.Header().UncledEntropy()))
+		return true
+	}},
+	// work shares: a share is included - and so rewarded - at most once, and never an ancestor
+	{"dupshare", func(w *cwWorld, m *types.WorkObject) bool {
+		// a share an ancestor within the inclusion depth already carries
+		parent := m.ParentHash(common.ZONE_CTX)
+		for i := 0; i < params.WorkSharesInclusionDepth; i++ {
+			anc := w.node.hc.GetWorkObjectWithWorkShares(parent)
+			if anc == nil {
+				return false
+			}
+			if us := anc.Uncles(); len(us) > 0 {
+				setUncles(m, append(append([]*types.WorkObjectHeader{}, m.Uncles()...), types.CopyWorkObjectHeader(us[0])))
+				return true
+			}
+			parent = anc.ParentHash(common.ZONE_CTX)
+		}
+		return false
+	}},
+	{"dupshareinblock", func(w *cwWorld, m *types.WorkObject) bool {
+		us := m.Uncles()
+		if len(us) == 0 {
+			return false
+		}
+		setUncles(m, append(append([]*types.WorkObjectHeader{}, us...), types.CopyWorkObjectHeader(us[0])))
+		return true
+	}},
+	{"ancestorshare", func(w *cwWorld, m *types.WorkObject) bool {
+		anc := w.node.hc.GetHeaderByHash(m.ParentHash(common.ZONE_CTX))
+		if anc == nil || w.node.hc.IsGenesisHash(anc.Hash()) {
+			return false
+		}
+		setUncles(m, append(append([]*types.WorkObjectHeader{}, m.Uncles()...), types.CopyWorkObjectHeader(anc.WorkObjectHeader())))
 		return true
 	}},
 	{"outboundetxhash", func(w *cwWorld, m *types.WorkObject) bool {
@@ -259,6 +293,12 @@ func keyClass(k string) string {
 // block storage and header-chain bookkeeping that a stored-but-rejected block may legitimately leave behind
 var c07NotChainState = map[string]bool{"header": true, "hash->number": true, "wb": true, "tk": true, "ph": true, "pb": true, "pbKey": true, "bh": true, "ma": true, "pe": true, "pr": true, "il": true, "ie": true}
 
+// setUncles replaces the work shares of a block and keeps the header's commitment to them in step
+func setUncles(m *types.WorkObject, us []*types.WorkObjectHeader) {
+	m.Body().SetUncles(us)
+	m.Header().SetUncleHash(types.CalcUncleHash(us))
+}
+
 func diffImages(a, b map[string]string) (classes []string) {
 	set := map[string]bool{}
 	for k, v := range b {
@@ -284,7 +324,7 @@ func errClass(err error) string {
 		{"invalid gas used", "gasused"}, {"invalid state used", "stateused"}, {"invalid quai trie size", "statesize"}, {"avgTxFees", "avgfees"}, {"totalFees", "totalfees"},
 		{"uncledEntropy", "uncled"}, {"outbound etx hash", "etxhash"}, {"transaction root hash", "txhash"}, {"invalid header hash", "headerhash"}, {"nonce too", "nonce"},
 		{"could not apply tx", "txapply"}, {"not in order", "etxorder"}, {"gas price less", "price"}, {"invalid signature", "sig"}, {"insufficient funds", "funds"},
-		{"emitted etx", "etxmismatch"}, {"sub not synced", "notsynced"}} {
+		{"emitted etx", "etxmismatch"}, {"sub not synced", "notsynced"}, {"duplicate uncle", "dupuncle"}, {"uncle is ancestor", "uncleancestor"}, {"uncle", "uncle"}} {
 		if strings.Contains(s, p[0]) {
 			return p[1]
 		}
@@ -346,6 +386,9 @@ func runC07(seed uint64, n int, outDir string, replay string) {
 						if err == nil {
 							ans("accept")
 							o.Violate("c07-mutant-accepted:"+mu.kind, fmt.Sprintf("block %d with mutation %s (re-sealed) was appended and became head", num, mu.kind))
+							if strings.Contains(mu.kind, "share") {
+								o.Violate("c13-workshare-included-twice-or-ancestor:"+mu.kind, fmt.Sprintf("block %d carrying a work share that an ancestor already carries (or that is an ancestor) was accepted: the share is rewarded again", num))
+							}
 							return
 						}
 						ans("reject")
